@@ -1,4 +1,6 @@
 (* C12 - cancelling work removes it everywhere and disturbs nothing else.
+   [run fx f8 P ..]: f8 = true is the code since /repo 5dfab15 (a task discarded because of a cancelled breadcrumb is
+   forgotten), f8 = false the code before (D8).
    Every theorem is stated for both variants of the completion loop: fx = true is the loop of /repo since 046ff56
    (iterates over a copy), fx = false the loop before that commit (D14); the harness selects the variant that the
    implementation exhibits (fx = true on the current tree).
@@ -148,13 +150,37 @@ Theorem C12_client_disconnect : forall fx f8 P nw evs s0 l0 c order asg s1 l1,
   /\ (forall a k q, In a (sy_issued s1) -> ~ In a (sy_issued s0) -> nth_error (sy_down s1) k = Some q -> In (MCancel a) q).
 Proof. exact client_disconnect. Qed.
 
-(* D8.  "At quiescence no worker holds anything of cancelled work" is false for the code as it is: a concrete
-   10-event run of one worker + server + one client ends quiescent with a cancelled task in Worker._tasks. *)
-Theorem C12_quiescent_clean_refuted :
+(* Quiescent cleanliness, for ALL schedules (code since /repo 5dfab15, f8 = true; both completion-loop variants).
+   Whenever the system is quiescent (all channels empty, every ready queue and every _delayed_tasks list empty) no
+   worker holds a started or delayed task that is a descendant of an address a CANCEL was issued for, nor the mailbox
+   of a cancelled future - including the runs in which a SUBMIT is handled after the CANCEL of an ancestor (the former
+   D8).  The proof shows (i) over FIFO channels a task is never delivered to a worker after the CANCEL of its OWN
+   address ([ord]), (ii) a task the worker knows to be cancelled is always still in the ready queue and is forgotten
+   when popped ([wgood]), (iii) an issued CANCEL is handled by, or on its way to, every worker ([cprop]).
+   The server side holds nothing of cancelled compilations in EVERY state: C12_client_cancel / C12_client_disconnect. *)
+Theorem C12_quiescent_clean : forall fx P nw evs s l,
+  run fx true P (init_sys nw) evs = Some (s, l) -> quiescent s = true -> clean s = true.
+Proof. exact quiescent_clean. Qed.
+
+(* the FIFO fact used above, on its own: in every reachable state no event delivers a task to a worker that has
+   already handled the CANCEL of that task's own address *)
+Theorem C12_no_self_overtake : forall fx P nw evs s l e,
+  run fx true P (init_sys nw) evs = Some (s, l) -> self_overtaken s e = false.
+Proof. exact no_self_overtake_reach. Qed.
+
+(* D8 (historical, fixed in /repo 5dfab15; statement about the old skip, f8 = false): a concrete 10-event run of one
+   worker + server + one client ended quiescent with a cancelled task in Worker._tasks. *)
+Theorem C12_D8_before_5dfab15 :
   exists s labs, run false false d8_progs (init_sys 1) d8_run = Some (s, labs)
     /\ quiescent s = true /\ clean s = false
     /\ forallb no_orphans (sy_workers s) = true.
 Proof. exact d8_witness. Qed.
+
+(* ... and the same schedule under the current code ends clean *)
+Example C12_D8_regression :
+  exists s labs, run true true d8_progs (init_sys 1) d8_run = Some (s, labs)
+    /\ quiescent s = true /\ clean s = true /\ w_tasks (nth 0 (sy_workers s) (init_worker 0)) = [].
+Proof. eexists. eexists. split; [vm_compute; reflexivity|]. vm_compute. auto. Qed.
 
 (* D14 (historical, fixed in /repo 046ff56; statement about the old loop, fx = false).  "Task completion cancels its
    unfinished children" was false: a task that returns with
@@ -187,17 +213,10 @@ Example C12_completion_fixed_example :
     /\ sy_issued s = [(1, 0, 0); (1, 1, 0)] /\ In (LLeft 1 (0, 0, 0) []) labs.
 Proof. eexists. eexists. split; [vm_compute; reflexivity|]. vm_compute. auto 20. Qed.
 
-(* Quiescent cleanliness holds on the runs without D8's trigger: if no SUBMIT(_BATCH) is handled by a worker after the
-   CANCEL of one of its tasks' ancestors ([overtaken] is false for every event of the run), then whenever the system
-   is quiescent no worker holds a started or delayed task of cancelled work, nor the mailbox of a cancelled future. *)
-Theorem C12_quiescent_clean_partial : forall fx f8 P nw evs s l,
-  run fx f8 P (init_sys nw) evs = Some (s, l) -> no_overtake fx f8 P (init_sys nw) evs = true ->
-  quiescent s = true -> clean s = true.
-Proof. exact quiescent_clean_partial. Qed.
-
-Definition C12_quiescent_clean_full : Prop :=
-  forall fx f8 P nw evs s l, run fx f8 P (init_sys nw) evs = Some (s, l) -> quiescent s = true ->
-    clean s = true /\ forallb no_orphans (sy_workers s) = true.
+(* Not proved (needs system-wide uniqueness of task addresses, C07's conservation invariant; covered by the
+   co-simulation and the oracle only): every mailbox of a worker is owned by a task in its _tasks. *)
+Definition C12_no_orphans_full : Prop :=
+  forall P nw evs s l, run true true P (init_sys nw) evs = Some (s, l) -> forallb no_orphans (sy_workers s) = true.
 
 (* non-vacuity: a run in which a cancel executes, a result is later discarded and CANCEL is delivered *)
 Example C12_nonvacuous :
@@ -207,15 +226,14 @@ Example C12_nonvacuous :
     /\ In (LCancel 1 (0, 0, 0) 0 1) labs /\ In (LDiscard 1 (1, 0, 0) 1) labs.
 Proof. eexists. eexists. split; [vm_compute; reflexivity|]. vm_compute. auto 20. Qed.
 
-(* non-vacuity of C12_quiescent_clean_partial: the run above has no overtaken SUBMIT, ends quiescent (and clean) *)
-Example C12_partial_nonvacuous :
+(* non-vacuity of C12_quiescent_clean: a run with a cancel that ends quiescent *)
+Example C12_quiescent_nonvacuous :
   let evs := [EClient 0 CConnect []; EClient 0 (CSubmit 0 0) [(0, [0])]; EDown 0; EStep 0;
        EUp 0 [(1, [0])]; EDown 1; EStep 1; EUp 0 []; EUp 0 []; EDown 1; EUp 1 []; EDown 0; EDown 0;
        EStep 0; EStep 1; EUp 0 []; EUp 1 []] in
   let P := [[ISubmit 1; ICancel 0]; []] in
-  no_overtake true true P (init_sys 2) evs = true
-  /\ exists s labs, run true true P (init_sys 2) evs = Some (s, labs) /\ quiescent s = true /\ sy_issued s = [(1, 0, 0)].
-Proof. split. vm_compute; reflexivity. eexists. eexists. split; [vm_compute; reflexivity|]. vm_compute. auto. Qed.
+  exists s labs, run true true P (init_sys 2) evs = Some (s, labs) /\ quiescent s = true /\ sy_issued s = [(1, 0, 0)].
+Proof. eexists. eexists. split; [vm_compute; reflexivity|]. vm_compute. auto. Qed.
 
 (* non-vacuity of the client theorems: a cancel and a disconnect that the handlers accept *)
 Example C12_client_nonvacuous :
